@@ -50,6 +50,7 @@ class Result:
             CURRENT[0] = self
         self.prop_id = prop_id
         self.incomplete = None
+        self.decided = {}            # rule -> instance keys decided (ok or violated) on this tree
         self.explanation = explanation
         self.findings: List[Finding] = []
         self._keys = set()
@@ -71,6 +72,7 @@ class Result:
         return self.rules.setdefault(name, {"instances": 0, "discharged": 0, "violations": 0})
 
     def ok(self, rule, instance, nontrivial=True, sample=None):
+        self.decided.setdefault(rule, set()).add(str(instance))
         r = self.rule(rule)
         r["instances"] += 1
         r["discharged"] += 1
@@ -82,6 +84,7 @@ class Result:
             self.samples.append({"rule": rule, "instance": instance, **(sample if isinstance(sample, dict) else {"info": sample})})
 
     def bad(self, rule, key, where, what, **detail):
+        self.decided.setdefault(rule, set()).add(str(key))
         k = f"{rule}|{key}"
         r = self.rule(rule)
         if k in self._keys:
